@@ -376,7 +376,8 @@ class Pipeline(Instance):
         samples0, splitters0 = (self.alts[inp.get("alt", 0)] if self.alts else (self.samples, self.splitters))
         case = {"threads": self.threads, "k": self.k, "splitters": [str(kmer_canon(w)) for w in splitters0], "driver": self.driver, "qcap": self.qcap,
                 "cfg": {n: (v.v if hasattr(v, "v") else v) for n, v in self.cfg.items()},
-                "samples": [[sn.decode(), [[cn.decode(), list(d)] for cn, d in cs]] for sn, cs in samples0], "runs": {"determinism": 12, "fault": 0}.get(self.view, 2), "indep": self.view == "format", "watchdog_s": 90}
+                "samples": [[sn.decode(), [[cn.decode(), list(d)] for cn, d in cs]] for sn, cs in samples0], "runs": {"determinism": 12, "fault": 0}.get(self.view, 2), "indep": self.view == "format", "watchdog_s": 90,
+                "pace_ms": [0, 25] if self.view == "determinism" else [0]}
         if inp.get("samples"):
             case["samples"] = inp["samples"]
         if inp.get("__concrete__"):
@@ -452,3 +453,6 @@ _reg(Pipeline("edit_subst_t1", 1, TWO, splitters=SPL, preempt=0, driver="api", e
 _reg(Pipeline("edit_indel_rc_t1", 1, TWO, splitters=SPL, preempt=0, driver="api", edits=[("rc", 1, 0), ("del", 1, 0), ("ins", 1, 0)]))
 _reg(Pipeline("fmt_api_t1", 1, THREE, splitters=SPL, preempt=0, driver="api", view="format"))
 _reg(Pipeline("nrun_subst_multi_t1", 1, NRUN, splitters=SPLN, preempt=0, driver="multi", edits=[("subst", 1, 0)], sym_alpha=(0, 1, 2, 3, 4)))
+UNS4 = [(b"sB", [(b"c1", C1), (b"c2", C3)]), (b"sA", [(b"c1", C2), (b"c2", C3), (b"c3", C1)])]
+_reg(Pipeline("det_single_unsorted_t1_p1", 1, UNS4, splitters=SPL, preempt=1, driver="single", view="determinism", pack_size=Int(64, 0, 2)))
+_reg(Pipeline("det_single_unsorted_t2_p0", 2, UNS4, splitters=SPL, preempt=0, driver="single", view="determinism", pack_size=Int(64, 0, 2)))
